@@ -347,8 +347,8 @@ def build_direct(s, variant=frozenset()):
     repaired defects, kept as regression probes so that a relapse is reported under its recorded
     signature: 'weekno' (byweekno := bysecond; D13), 'utc' (date-valued until/include/exclude at UTC,
     datetime-string until re-labelled UTC; D21), 'untiltime' (datetime-object until keeps only its
-    date; D35); and of the open one: 'frac' (date-valued include / exclude keep the microseconds of
-    a fractional start; D53)."""
+    date; D35), 'frac' (date-valued include / exclude keep the microseconds of a fractional start;
+    D53)."""
     from dateutil import rrule as R
 
     p = s["p"]
@@ -1067,14 +1067,6 @@ def gen_sites_case(rng):
         u = s["p"].get("until")
         if u and u["k"] in ("date", "dtobj"):
             u["k"] = {"date": "datestr", "dtobj": "dtstr"}[u["k"]]
-    def whole_seconds(x):  # call-site cases stay clear of the open finding D53
-        x["p"]["start"].pop("us", None)
-        for key in ("include", "exclude"):
-            for it in x.get(key) or []:
-                if it["k"] == "set":
-                    whole_seconds(it["set"])
-
-    whole_seconds(s)
     s["p"]["lf"] = rng.choice([0, 1])
     s["p"].pop("byweekno", None)
     if s["p"].get("interval") is not None and s["p"]["interval"] < 1:
